@@ -40,6 +40,25 @@ type ctW struct {
 
 type ctNamed string
 
+type ctMid struct {
+	L ctInner
+}
+
+// no rule of its own; reached through an embedded pointer by a sub-field reference of the outer field
+type ctBase struct {
+	ID int
+}
+
+// a struct used as the key of a map that sits two container levels deep
+type ctKey struct {
+	V int `vd:"$>0"`
+}
+
+type ctEmb struct {
+	*ctBase
+	Name string
+}
+
 type ctReq struct {
 	Name string
 	In   *ctInner
@@ -51,6 +70,15 @@ type ctReq struct {
 	I    interface{}
 	LI   []interface{} `vd:"len($)>=0"`
 	J    interface{}   `vd:"$==nil||len($)>=0"`
+	// a multi-level pointer to a struct with a nested rule: nil at any level means there is nothing to check
+	PPP ***ctMid
+	// a sub-field reference through an embedded pointer that may be nil
+	Emb ctEmb `vd:"$['ID']==nil||$['ID']>0"`
+	// containers two levels deep inside one member
+	LL [][]interface{}
+	LM []map[string]interface{}
+	ML map[string][]interface{}
+	LK [][]map[ctKey]int
 }
 
 // plan of a value; everything drawn by rapid
@@ -72,6 +100,11 @@ type ctPlan struct {
 	LIKind []int // per element: 0 int, 1 int8, 2 *int, 3 named string, 4 ctW by value, 5 *ctInner, 6 float64, 7 nil
 	LI     []ctLeaf
 	JLen   int // -1: nil
+	PPPNil int // 0: PPP nil, 1: *PPP nil, 2: **PPP nil, 3: all set
+	PPP    ctLeaf
+	Emb    ctLeaf // Nil: the embedded pointer is nil
+	Deep   []ctLeaf
+	DeepAt []int // 0 LL, 1 LM, 2 ML, 3 LK (the leaf is the key)
 }
 
 func drawLeaf(t *rapid.T, label string) ctLeaf {
@@ -107,6 +140,15 @@ func drawPlan(t *rapid.T) *ctPlan {
 		p.LIKind[i] = rapid.IntRange(0, 7).Draw(t, fmt.Sprintf("likind%d", i))
 	}
 	p.JLen = rapid.IntRange(-1, 2).Draw(t, "jlen")
+	p.PPPNil = rapid.IntRange(0, 3).Draw(t, "pppNilLevel")
+	p.PPP = drawLeaf(t, "ppp")
+	p.PPP.Nil = p.PPPNil != 3
+	p.Emb = drawLeaf(t, "emb")
+	p.Deep = drawLeaves(t, "deep", 3)
+	p.DeepAt = make([]int, len(p.Deep))
+	for i := range p.DeepAt {
+		p.DeepAt[i] = rapid.IntRange(0, 3).Draw(t, fmt.Sprintf("deepAt%d", i))
+	}
 	return p
 }
 
@@ -221,6 +263,53 @@ func (p *ctPlan) build() (v *ctReq, ok bool, leaves int) {
 		}
 		v.J = j
 	}
+	switch p.PPPNil {
+	case 1:
+		var a **ctMid
+		v.PPP = &a
+	case 2:
+		var a *ctMid
+		b := &a
+		v.PPP = &b
+	case 3:
+		a := &ctMid{L: *inner(ctLeaf{X: p.PPP.X})}
+		b := &a
+		v.PPP = &b
+	}
+	if !p.Emb.Nil {
+		leaves++
+		if !(p.Emb.X > 0) {
+			ok = false
+		}
+		v.Emb.ctBase = &ctBase{ID: p.Emb.X}
+	}
+	for i, l := range p.Deep {
+		if p.DeepAt[i] == 3 {
+			if !l.Nil {
+				leaves++
+				if !(l.X > 0) {
+					ok = false
+				}
+				v.LK = append(v.LK, []map[ctKey]int{{ctKey{V: l.X}: 1}})
+			}
+			continue
+		}
+		var e interface{}
+		if in := inner(l); in != nil {
+			e = in
+		}
+		switch p.DeepAt[i] {
+		case 0:
+			v.LL = append(v.LL, []interface{}{1, e})
+		case 1:
+			v.LM = append(v.LM, map[string]interface{}{"k": e})
+		case 2:
+			if v.ML == nil {
+				v.ML = map[string][]interface{}{}
+			}
+			v.ML[fmt.Sprintf("k%d", i)] = []interface{}{e}
+		}
+	}
 	return v, ok, leaves
 }
 
@@ -247,7 +336,8 @@ func (p *ctPlan) describe() string {
 	ls("MW{}.P", p.MW)
 	fmt.Fprintf(&b, " A[0].P=%s I(kind %d)=%s LI kinds=%v", leaf(p.A), p.IKind, leaf(p.I), p.LIKind)
 	ls("LI", p.LI)
-	fmt.Fprintf(&b, " len(J)=%d", p.JLen)
+	fmt.Fprintf(&b, " len(J)=%d PPP(nil level %d)=%s Emb.ID=%s deepAt=%v", p.JLen, p.PPPNil, leaf(p.PPP), leaf(p.Emb), p.DeepAt)
+	ls("deep", p.Deep)
 	return b.String()
 }
 
